@@ -190,6 +190,18 @@ def run(ctx):
         ctx.process(recs, out, rc, "TestVerifHHProcStress")
     # 2c. batch bisection in WriteShard (HHSplit): exhaustive on the model, sampled cases on the real code
     split(ctx, sd)
+    # 2d. service level (HHService): lookup/append against the purge of idle processors
+    if not ctx.replay:
+        sc = {"Procs": {11, 12, 21}, "Nodes": {1, 2}, "Writers": ["w1", "w2"], "MaxBlocks": 3, "WriteUnderLock": True}
+        ctx.write_cfg(sd, "SvcMC.cfg", "Spec", sc, ["C04_ServiceNoLoss"])
+        ctx.tlc_check(sd, "HHService", "SvcMC.cfg", workers=8, timeout=900)
+        # negative control: the lock discipline found in the repository (append after the lock is released) loses a block
+        ctx.write_cfg(sd, "SvcNeg.cfg", "Spec", dict(sc, WriteUnderLock=False), ["C04_ServiceNoLoss"])
+        neg = ctx.tlc_check(sd, "HHService", "SvcNeg.cfg", workers=4, timeout=300, expect_ok=False)
+        if neg["ok"]:
+            raise Infra("negative control: HHService without write-under-lock does not violate C04_ServiceNoLoss")
+        recs, out, rc = ctx.go_test(PKG, FILES, "^TestVerifHHServiceStress$", env={"VERIF_ROUNDS": ctx.pick(12, 120)}, timeout=1800, label="servicestress")
+        ctx.process(recs, out, rc, "TestVerifHHServiceStress")
     # 3. real concurrent executions (buffered path, racing Close) -> HHQueueTrace
     tr = concurrent(ctx, sd)
     extra = {"replayed_behaviours": done.get("behaviours", 0), "replayed_steps": done.get("steps", 0),
